@@ -22,7 +22,7 @@ TIMING = re.compile(r"(in|took|parsed in) \d+\.\d+s")
 def cases(draw):
     avoid = c01.current_avoid()
     p = draw(gen.programs({"features": set(gen.FEATURES) - {"faults"}, "avoid": avoid, "max_fns": 4, "max_types": 3, "max_stmts": 7}))
-    kind = draw(st.sampled_from(["single", "single", "multi", "invalid"]))
+    kind = draw(st.sampled_from(["single", "single", "multi", "invalid", "snippet", "snippet"]))
     files = {"main.capy": program_src(p)}
     if kind == "multi":
         items = c20.top_level_items(p)
@@ -37,6 +37,33 @@ def cases(draw):
         idx = src.rfind("main :: ()")
         brace = src.find("{\n", idx)
         files = {"main.capy": src[:brace + 2] + inject + src[brace + 2:]}
+    if kind == "snippet":
+        # shapes whose compilation iterates over members / writes padded aggregates into the object
+        src = files["main.capy"]
+        which = draw(st.sampled_from(["struct-cast", "comptime-padded", "missing-members", "comptime-array"]))
+        n = draw(st.integers(3, 6))
+        tys = ["i32", "f64", "char", "u64", "bool", "i16"][:n]
+        tys2 = ["i64", "f32", "u8", "f64", "bool", "i32"][:n]
+        order = list(draw(st.permutations(list(range(n)))))
+        top, body = "", ""
+        if which == "struct-cast":
+            top = "CFoo :: struct { " + ", ".join(f"m{i}: {tys[i]}" for i in range(n)) + " };\nCBar :: struct { " + ", ".join(f"m{i}: {tys2[i]}" for i in order) + " };\n"
+            vals = {"i32": "5", "f64": "42.0", "char": "'a'", "u64": "256", "bool": "true", "i16": "7"}
+            body = "    cfoo := CFoo.{ " + ", ".join(f"m{i} = {vals[tys[i]]}" for i in range(n)) + " };\n    cbar := CBar.(cfoo);\n    printf(\"%ld\\n\", i64.(cbar.m0));\n"
+        elif which == "comptime-padded":
+            top = "CPad :: struct { a: u8, b: u64, c: u8 };\ncpad :: comptime { CPad.{ a = 1, b = 2, c = 3 } };\n"
+            body = "    printf(\"%ld\\n\", i64.(cpad.b));\n    lpad :: comptime { x : ?u64 = 7; x };\n"
+        elif which == "comptime-array":
+            top = "CEl :: struct { a: u8, b: i64 };\ncarr :: CEl.[comptime { CEl.{ a = 1, b = 2 } }, comptime { CEl.{ a = 3, b = 4 } }];\n"
+            body = "    printf(\"%ld\\n\", carr[1].b);\n"
+        else:
+            top = "CMiss :: struct { " + ", ".join(f"m{i}: i32" for i in range(n)) + " };\n"
+            body = "    cmiss : CMiss = CMiss.{ m0 = 1 };\n"
+            kind = "snippet-invalid"
+        idx = src.rfind("main :: ()")
+        brace = src.find("{\n", idx)
+        files = {"main.capy": src[:idx] + top + src[idx:brace + 2] + body + src[brace + 2:]}
+        kind = kind + ":" + which
     other = draw(st.sampled_from(['main :: () { }\n', 'puts :: (s: str) -> i32 extern;\nS :: struct { a: i32 };\nmain :: () -> i32 { puts("other"); x : S = S.{ a = 4 }; x.a }\n']))
     return {"files": files, "kind": kind, "other": other}
 
@@ -74,19 +101,21 @@ def fresh(scratch, name):
 def compare(a, b, what, case):
     if a is None or b is None:
         return
-    replay = {"files": case["files"], "other": case["other"]}
+    replay = {"files": case["files"], "other": case["other"], "kind": case.get("kind", "")}
+    # programs with a special snippet are keyed by it (so that one listed shape cannot hide another)
+    shape = ":" + case["kind"].split(":", 1)[1] if case.get("kind", "").startswith("snippet") and ":" in case.get("kind", "") else ""
     desc_files = "\n".join(f"// {n}\n{t}" for n, t in case["files"].items())[:3000]
     if a["rc"] != b["rc"]:
         raise Fail(f"C21:{what}:exit-status", f"{what}: exit status {a['rc']} vs {b['rc']}\n--- files ---\n{desc_files}", replay)
     if a["out"] != b["out"]:
         al, bl = a["out"].split("\n"), b["out"].split("\n")
         i = next((k for k in range(min(len(al), len(bl))) if al[k] != bl[k]), min(len(al), len(bl)))
-        raise Fail(f"C21:{what}:diagnostics", f"{what}: compiler output differs at line {i}:\n  {al[i:i+2]}\n  {bl[i:i+2]}\n--- files ---\n{desc_files}", replay)
+        raise Fail(f"C21:{what}:diagnostics{shape}", f"{what}: compiler output differs at line {i}:\n  {al[i:i+2]}\n  {bl[i:i+2]}\n--- files ---\n{desc_files}", replay)
     if (a["obj"] is None) != (b["obj"] is None):
         raise Fail(f"C21:{what}:object-presence", f"{what}: one build wrote an object file, the other did not\n--- files ---\n{desc_files}", replay)
     if a["obj"] is not None and a["obj"] != b["obj"]:
         n = next((k for k in range(min(len(a["obj"]), len(b["obj"]))) if a["obj"][k] != b["obj"][k]), -1)
-        raise Fail(f"C21:{what}:object-bytes", f"{what}: object files differ (sizes {len(a['obj'])} / {len(b['obj'])}, first difference at byte {n})\n--- files ---\n{desc_files}", replay)
+        raise Fail(f"C21:object-bytes{shape}" if shape else f"C21:{what}:object-bytes", f"{what}: object files differ (sizes {len(a['obj'])} / {len(b['obj'])}, first difference at byte {n})\n--- files ---\n{desc_files}", replay)
 
 
 def run_case(case, scratch):
@@ -134,13 +163,14 @@ def check(case, stats, scratch, profile):
 
 def replay_payload(payload, scratch):
     try:
-        run_case({"files": payload["files"], "other": payload["other"], "kind": "replay"}, scratch)
+        run_case({"files": payload["files"], "other": payload["other"], "kind": payload.get("kind", "replay")}, scratch)
     except Fail as f:
         return f.key
     return None
 
 
-RULE = ("generated programs: valid single-file, valid multi-file (C20 arrangement into up to 3 files), invalid (one or two injected type/undefined/syntax errors); each built 5 times with "
+RULE = ("generated programs: valid single-file, with snippets that make the compiler iterate over members or emit padded aggregates (struct-to-struct cast with reordered members, comptime "
+        "blocks yielding padded structs / optionals, constant arrays of comptime items, struct literals missing several members), valid multi-file (C20 arrangement into up to 3 files), invalid (one or two injected type/undefined/syntax errors); each built 5 times with "
         "`capy build --no-exec`: fresh directory, same path recreated, same directory with stale ./out, after an unrelated program, a differently named directory; objects compared byte "
         "for byte, compiler output compared after stripping timings. Non-trivial = >= 2 files or >= 1 diagnostic; distinct by file contents.")
 
